@@ -14,7 +14,10 @@
 (* interface is missing from the source.  A fault is either                 *)
 (*   kind "stage":  one file fails at one step of the per-file pipeline     *)
 (*                  (template, schema, exec, format: natural faults;        *)
-(*                   mkdir, stat, write: failpoints), or                    *)
+(*                   mkdir, stat, write: failpoints),                       *)
+(*   kind "shared": one cause (a template / schema / template-data that     *)
+(*                  several output files share) makes that stage fail for   *)
+(*                  every one of those files, or                            *)
 (*   kind "input":  one of the invalid-input classes of C09 placed at a     *)
 (*                  configuration level, on the first/last package, alone   *)
 (*                  or among valid packages.                                *)
@@ -68,9 +71,12 @@ InitStates == {"absent", "gen", "user", "dir"}
 Phases    == <<"load", "init", "parse", "select", "resolve", "collect">>
 Levels    == <<"root", "pkg", "iface", "entry">>
 
-NoFault == [kind |-> "none", file |-> "-", at |-> "-", class |-> "-", level |-> "-", pos |-> "-", ctx |-> "-"]
-StageFault(f, s) == [kind |-> "stage", file |-> f, at |-> s, class |-> "-", level |-> "-", pos |-> "-", ctx |-> "-"]
-InputFault(c, l, p, x) == [kind |-> "input", file |-> "-", at |-> "-", class |-> c, level |-> l, pos |-> p, ctx |-> x]
+NoFault == [kind |-> "none", file |-> "-", files |-> {}, at |-> "-", class |-> "-", level |-> "-", pos |-> "-", ctx |-> "-"]
+StageFault(f, s) == [kind |-> "stage", file |-> f, files |-> {f}, at |-> s, class |-> "-", level |-> "-", pos |-> "-", ctx |-> "-"]
+\* one cause shared by several output files (they use the same custom template / schema / template-data): the
+\* stage fails for EVERY file in S, whichever comes first and whether or not the run goes on after the first failure
+SharedFault(S, s) == [kind |-> "shared", file |-> "*", files |-> S, at |-> s, class |-> "-", level |-> "-", pos |-> "-", ctx |-> "-"]
+InputFault(c, l, p, x) == [kind |-> "input", file |-> "-", files |-> {}, at |-> "-", class |-> c, level |-> l, pos |-> p, ctx |-> x]
 
 -----------------------------------------------------------------------------
 (* Invalid-input classes of C09: at which configuration levels each can be written, and where the
@@ -120,6 +126,7 @@ HasMissing(wd) == wd.missing \/ (wd.fault.kind = "input" /\ wd.fault.class \in {
 
 FaultyAt(wd, f, s) ==
   \/ wd.fault.kind = "stage" /\ wd.fault.file = f /\ wd.fault.at = s
+  \/ wd.fault.kind = "shared" /\ f \in wd.fault.files /\ wd.fault.at = s
   \/ wd.fault.kind = "input" /\ StageOfClass(wd.fault.class) = s /\ (wd.fault.level = "root" \/ f = Victim(wd.fault))
 
 -----------------------------------------------------------------------------
@@ -294,7 +301,7 @@ Terminates == pc = "done" => exit \in {0, 1}
 \* vacuity witnesses: each of these must be VIOLATED on the C10 model (checked by the harness)
 NeverAFailedStage == failed = {}
 NeverAnExistingFileOverwritten == \A f \in FileSet : ~(f \in written /\ w.fs0[f] # "absent")
-NeverBlockedByExistingFile == ~(pc = "done" /\ \E f \in failed : w.fault.file # f /\ w.fs0[f] # "absent")
+NeverBlockedByExistingFile == ~(pc = "done" /\ \E f \in failed : f \notin w.fault.files /\ w.fs0[f] # "absent")
 NeverWriteAfterFailure == ~(\E f \in written : failed # {} /\ ~StopAtFailure)
 
 -----------------------------------------------------------------------------
